@@ -45,6 +45,7 @@ type c12sScenario struct {
 	NotifyCommit bool       `json:"notify_commit"`
 	Clients      [][]string `json:"clients"`
 	Stepper      []string   `json:"stepper,omitempty"`
+	Committer    []string   `json:"committer,omitempty"`
 	Applier      []string   `json:"applier,omitempty"`
 	Closer       []string   `json:"closer,omitempty"`
 }
@@ -54,7 +55,7 @@ type c12sScenario struct {
 // own. Only for these scenarios a diverging re-execution is retried.
 func (s *c12sScenario) retries() int {
 	if len(s.Clients) > 1 {
-		return 64
+		return 512
 	}
 	return 0
 }
@@ -62,6 +63,9 @@ func (s *c12sScenario) retries() int {
 func (s *c12sScenario) threads() int {
 	n := len(s.Clients)
 	if len(s.Stepper) > 0 {
+		n++
+	}
+	if len(s.Committer) > 0 {
 		n++
 	}
 	if len(s.Applier) > 0 {
@@ -86,8 +90,8 @@ var (
 
 func c12sScenarios(thorough bool) []c12sScenario {
 	var out []c12sScenario
-	add := func(fam string, nc bool, clients [][]string, st, ap, cl []string) {
-		s := c12sScenario{NotifyCommit: nc, Clients: clients, Stepper: st, Applier: ap, Closer: cl}
+	add := func(fam string, nc bool, clients [][]string, st, cm, ap, cl []string) {
+		s := c12sScenario{NotifyCommit: nc, Clients: clients, Stepper: st, Committer: cm, Applier: ap, Closer: cl}
 		if s.threads() < 2 || s.threads() > 4 {
 			return
 		}
@@ -95,23 +99,27 @@ func c12sScenarios(thorough bool) []c12sScenario {
 		for _, c := range clients {
 			cn = append(cn, strings.Join(c, ""))
 		}
-		s.Name = fmt.Sprintf("%s nc=%v clients=%s stepper=%s applier=%s closer=%s", fam, nc,
-			strings.Join(cn, "+"), strings.Join(st, ","), strings.Join(ap, ","), strings.Join(cl, ","))
+		s.Name = fmt.Sprintf("%s nc=%v clients=%s stepper=%s committer=%s applier=%s closer=%s", fam, nc,
+			strings.Join(cn, "+"), strings.Join(st, ","), strings.Join(cm, ","), strings.Join(ap, ","), strings.Join(cl, ","))
 		out = append(out, s)
 	}
 	cl := [][]string{nil, {"cl"}}
-	// proposals
-	for _, nc := range []bool{false, true} {
-		for _, c := range [][]string{c12sCP2, c12sCP1} {
-			steppers := [][]string{{"hp"}, {"hp", "dp"}, {"hp", "tg"}, {"tg", "hp"}, {"hp", "tg", "hp"}}
-			if nc {
-				steppers = [][]string{{"hp", "cm"}, {"hp", "cm", "tg"}, {"hp", "dp"}}
+	// proposals, NotifyCommit off: client + step worker + apply worker + closer
+	for _, c := range [][]string{c12sCP2, c12sCP1} {
+		for _, st := range [][]string{{"hp"}, {"hp", "dp"}, {"hp", "tg"}, {"tg", "hp"}, {"hp", "tg", "hp"}} {
+			for _, ap := range [][]string{nil, {"ap"}, {"ap", "ap"}} {
+				for _, k := range cl {
+					add("proposal", false, [][]string{c}, st, nil, ap, k)
+				}
 			}
-			for _, st := range steppers {
-				for _, ap := range [][]string{nil, {"ap"}, {"ap", "ap"}} {
-					for _, k := range cl {
-						add("proposal", nc, [][]string{c}, st, ap, k)
-					}
+		}
+	}
+	// proposals, NotifyCommit on: the commit worker is a thread of its own
+	for _, c := range [][]string{c12sCP2, c12sCP1} {
+		for _, st := range [][]string{{"hp"}, {"hp", "tg"}, {"hp", "dp"}} {
+			for _, ap := range [][]string{nil, {"ap"}} {
+				for _, k := range cl {
+					add("proposal", true, [][]string{c}, st, []string{"cm"}, ap, k)
 				}
 			}
 		}
@@ -121,39 +129,41 @@ func c12sScenarios(thorough bool) []c12sScenario {
 		for _, st := range [][]string{{"hr"}, {"hr", "rr"}, {"hr", "dr"}, {"hr", "tg"}, {"hr", "rr", "hr"}, {"hr", "rr", "tg"}} {
 			for _, ap := range [][]string{nil, {"ar"}} {
 				for _, k := range cl {
-					add("read", false, [][]string{c}, st, ap, k)
+					add("read", false, [][]string{c}, st, nil, ap, k)
 				}
 			}
 		}
 	}
 	// cross-kind pool reuse, two clients
 	for _, k := range cl {
-		add("cross", false, [][]string{c12sCPR}, []string{"hp", "hr", "rr"}, []string{"ap"}, k)
-		add("cross", false, [][]string{c12sCRP}, []string{"hr", "rr", "hp"}, []string{"ap"}, k)
-		add("cross2", false, [][]string{c12sCP1, c12sCR1}, []string{"hp", "hr", "rr"}, []string{"ap"}, nil)
-		add("cross2", false, [][]string{c12sCP2, c12sCR1}, []string{"hp", "hr"}, k, nil)
-		add("cross2", false, [][]string{c12sCP1, c12sCP1}, []string{"hp", "tg"}, []string{"ap"}, nil)
-		add("cross2", false, [][]string{c12sCR1, c12sCR1}, []string{"hr", "rr"}, k, nil)
+		add("cross", false, [][]string{c12sCPR}, []string{"hp", "hr", "rr"}, nil, []string{"ap"}, k)
+		add("cross", false, [][]string{c12sCRP}, []string{"hr", "rr", "hp"}, nil, []string{"ap"}, k)
+		add("cross2", false, [][]string{c12sCR1, c12sCR1}, []string{"hr", "rr"}, nil, nil, k)
+		add("cross2", false, [][]string{c12sCP2, c12sCR1}, []string{"hp", "hr"}, nil, nil, k)
 	}
-	add("cross2", false, [][]string{c12sCP1, c12sCR1}, []string{"hp", "hr"}, nil, []string{"cl"})
-	// config change, snapshot
-	for _, nc := range []bool{false, true} {
-		steppers := [][]string{{"hc"}, {"hc", "tg"}, {"hc", "dc"}}
-		if nc {
-			steppers = [][]string{{"hc", "cc"}, {"hc", "cc", "tg"}}
-		}
-		for _, st := range steppers {
-			for _, ap := range [][]string{nil, {"ac"}} {
-				for _, k := range cl {
-					add("confchange", nc, [][]string{c12sCC2}, st, ap, k)
-				}
+	add("cross2", false, [][]string{c12sCP1, c12sCR1}, []string{"hp", "hr", "rr"}, nil, []string{"ap"}, nil)
+	add("cross2", false, [][]string{c12sCP1, c12sCP1}, []string{"hp", "tg"}, nil, []string{"ap"}, nil)
+	add("cross2", false, [][]string{c12sCP1, c12sCR1}, []string{"hp", "hr"}, nil, nil, []string{"cl"})
+	// config change
+	for _, st := range [][]string{{"hc"}, {"hc", "tg"}, {"hc", "dc"}} {
+		for _, ap := range [][]string{nil, {"ac"}} {
+			for _, k := range cl {
+				add("confchange", false, [][]string{c12sCC2}, st, nil, ap, k)
 			}
 		}
 	}
+	for _, st := range [][]string{{"hc"}, {"hc", "tg"}} {
+		for _, ap := range [][]string{nil, {"ac"}} {
+			for _, k := range cl {
+				add("confchange", true, [][]string{c12sCC2}, st, []string{"cc"}, ap, k)
+			}
+		}
+	}
+	// snapshot
 	for _, st := range [][]string{{"hs"}, {"hs", "tg"}} {
 		for _, ap := range [][]string{nil, {"as"}, {"ai"}} {
 			for _, k := range cl {
-				add("snapshot", false, [][]string{c12sCS2}, st, ap, k)
+				add("snapshot", false, [][]string{c12sCS2}, st, nil, ap, k)
 			}
 		}
 	}
@@ -225,9 +235,8 @@ type c12sWorld struct {
 	refused     []string
 	refusedSeq  []int // call-start stamps of refused pooled (proposal/read) calls
 	takenP      []pb.Entry
-	nextApply   int
-	nextDrop    int
-	nextCommit  int
+	fate        []int // per taken entry: 0 none, 1 dropped, 2 committing, 3 committed, +4 applied
+	ccFate      []int // same for taken config changes
 	batches     []*c12sBatch
 	ccKeys      []uint64
 	ssKeys      []uint64
@@ -272,7 +281,7 @@ func c12sNewWorld(sc *c12sScenario, run *vsched.Run) *c12sWorld {
 	// one proposal shard with a fixed key generator (keys are opaque)
 	w.pp = pendingProposal{
 		shards: []*proposalShard{newPendingProposalShard(cfg, nc, p, w.pq)},
-		keyg:   []*keyGenerator{{rand: rand.New(rand.NewSource(20240924))}},
+		keyg:   []*keyGenerator{{rand: rand.New(&c12sSrc{x: 20240924})}},
 		ps:     1,
 	}
 	w.rq = newReadIndexQueue(4)
@@ -298,11 +307,30 @@ func (w *c12sWorld) tickBounds() (lo, hi uint64) {
 
 const c12sTimeout = 3
 
+// c12sSrc is a cheap deterministic math/rand Source (request keys and client
+// ids are opaque identifiers; seeding the std generator costs more than a
+// whole execution).
+type c12sSrc struct{ x uint64 }
+
+func (s *c12sSrc) next() uint64 {
+	s.x += 0x9e3779b97f4a7c15
+	z := s.x
+	z = (z ^ (z >> 30)) * 0xbf58476d1ce4e5b9
+	z = (z ^ (z >> 27)) * 0x94d049bb133111eb
+	return z ^ (z >> 31)
+}
+func (s *c12sSrc) Int63() int64    { return int64(s.next() >> 1) }
+func (s *c12sSrc) Uint64() uint64  { return s.next() }
+func (s *c12sSrc) Seed(seed int64) { s.x = uint64(seed) }
+func (s *c12sSrc) Int() int        { return int(s.next() >> 1) }
+
+var c12sDebug = os.Getenv("VERIF_DEBUG") != ""
+
 // ---------------------------------------------------------------- threads
 
 func (w *c12sWorld) clientBody(ci int, prog []string) func() {
 	return func() {
-		session := client.NewNoOPSession(1, rand.New(rand.NewSource(int64(ci)+7)))
+		session := client.NewNoOPSession(1, &c12sSrc{x: uint64(ci) + 7})
 		var cur *c12sReq
 		for _, op := range prog {
 			vsched.Yield()
@@ -345,6 +373,9 @@ func (w *c12sWorld) clientBody(ci int, prog []string) func() {
 				q.accepted = w.seq()
 				w.reqs = append(w.reqs, q)
 				w.mu.Unlock()
+				if c12sDebug {
+					w.run.Logf("accepted #%d key=%x", q.id, q.key)
+				}
 				cur = q
 			case "a":
 				if cur == nil {
@@ -353,6 +384,9 @@ func (w *c12sWorld) clientBody(ci int, prog []string) func() {
 				rs := cur.obj
 				if !vsched.Await(func() bool { return len(rs.CompletedC) > 0 }, "client awaits result") {
 					return
+				}
+				if c12sDebug {
+					w.run.Logf("got result of #%d key=%x", cur.id, cur.key)
 				}
 				w.mu.Lock()
 				w.drainCommitted(cur)
@@ -408,29 +442,18 @@ func (w *c12sWorld) stepperBody(prog []string) func() {
 				s := w.seq()
 				for _, e := range ents {
 					w.takenP = append(w.takenP, pb.Entry{Key: e.Key, ClientID: e.ClientID, SeriesID: e.SeriesID})
+					w.fate = append(w.fate, 0)
 					w.markTaken(e.Key, nil, s)
 				}
 				w.mu.Unlock()
-			case "cm": // notifyCommittedEntries
+			case "dp": // processDroppedEntries: an entry that was not appended (never committed / applied)
 				w.mu.Lock()
-				if w.nextCommit >= len(w.takenP) {
+				i := w.claim(w.fate, func(f int) bool { return f == 0 }, 1)
+				if i < 0 {
 					w.mu.Unlock()
 					continue
 				}
-				e := w.takenP[w.nextCommit]
-				w.nextCommit++
-				w.commitKeys[e.Key] = w.seq()
-				w.mu.Unlock()
-				w.pp.committed(e.ClientID, e.SeriesID, e.Key)
-			case "dp": // processDroppedEntries
-				w.mu.Lock()
-				if w.nextDrop >= len(w.takenP) {
-					w.mu.Unlock()
-					continue
-				}
-				e := w.takenP[w.nextDrop]
-				w.nextDrop++
-				w.nextApply = w.nextDrop
+				e := w.takenP[i]
 				w.droppedKeys[e.Key] = w.seq()
 				w.mu.Unlock()
 				w.pp.dropped(e.ClientID, e.SeriesID, e.Key)
@@ -507,28 +530,20 @@ func (w *c12sWorld) stepperBody(prog []string) func() {
 					if ok {
 						w.mu.Lock()
 						w.ccKeys = append(w.ccKeys, req.key)
+						w.ccFate = append(w.ccFate, 0)
 						w.markTaken(req.key, nil, w.seq())
 						w.mu.Unlock()
 					}
 				default:
 				}
-			case "cc": // committed config change
-				w.mu.Lock()
-				if len(w.ccKeys) == 0 {
-					w.mu.Unlock()
-					continue
-				}
-				k := w.ccKeys[len(w.ccKeys)-1]
-				w.commitKeys[k] = w.seq()
-				w.mu.Unlock()
-				w.pcc.committed(k)
 			case "dc": // dropped config change
 				w.mu.Lock()
-				if len(w.ccKeys) == 0 {
+				i := w.claim(w.ccFate, func(f int) bool { return f == 0 }, 1)
+				if i < 0 {
 					w.mu.Unlock()
 					continue
 				}
-				k := w.ccKeys[len(w.ccKeys)-1]
+				k := w.ccKeys[i]
 				w.droppedKeys[k] = w.seq()
 				w.mu.Unlock()
 				w.pcc.dropped(k)
@@ -571,16 +586,28 @@ func (w *c12sWorld) applierBody(prog []string) func() {
 			vsched.Yield()
 			switch op {
 			case "ap":
+				// the apply worker sees an entry only after the step worker took
+				// it and it was not dropped; with NotifyCommit only after the commit
+				// worker's committed(key) returned (node.notifyCommittedEntries
+				// forwards the task to the apply queue afterwards)
+				want := func(f int) bool { return f == 0 }
+				if w.sc.NotifyCommit {
+					want = func(f int) bool { return f == 3 }
+				}
 				if !vsched.Await(func() bool {
 					w.mu.Lock()
 					defer w.mu.Unlock()
-					return w.nextApply < len(w.takenP)
-				}, "applier awaits a taken entry") {
+					return w.find(w.fate, want) >= 0
+				}, "applier awaits an entry") {
 					return
 				}
 				w.mu.Lock()
-				e := w.takenP[w.nextApply]
-				w.nextApply++
+				i := w.claim(w.fate, want, 7)
+				if i < 0 {
+					w.mu.Unlock()
+					continue
+				}
+				e := w.takenP[i]
 				w.resultN++
 				v := 1000 + w.resultN
 				w.applied = append(w.applied, c12sApplied{key: e.Key, value: v, seq: w.seq()})
@@ -595,15 +622,24 @@ func (w *c12sWorld) applierBody(prog []string) func() {
 				w.mu.Unlock()
 				w.pri.applied(5)
 			case "ac":
+				want := func(f int) bool { return f == 0 }
+				if w.sc.NotifyCommit {
+					want = func(f int) bool { return f == 3 }
+				}
 				if !vsched.Await(func() bool {
 					w.mu.Lock()
 					defer w.mu.Unlock()
-					return len(w.ccKeys) > 0
-				}, "applier awaits a taken config change") {
+					return w.find(w.ccFate, want) >= 0
+				}, "applier awaits a config change") {
 					return
 				}
 				w.mu.Lock()
-				k := w.ccKeys[0]
+				i := w.claim(w.ccFate, want, 7)
+				if i < 0 {
+					w.mu.Unlock()
+					continue
+				}
+				k := w.ccKeys[i]
 				w.applied = append(w.applied, c12sApplied{key: k, seq: w.seq()})
 				w.mu.Unlock()
 				w.pcc.apply(k, false)
@@ -627,6 +663,79 @@ func (w *c12sWorld) applierBody(prog []string) func() {
 				}
 			default:
 				panic("harness: unknown applier op " + op)
+			}
+		}
+	}
+}
+
+func (w *c12sWorld) find(f []int, want func(int) bool) int {
+	for i, v := range f {
+		if want(v) {
+			return i
+		}
+	}
+	return -1
+}
+
+func (w *c12sWorld) claim(f []int, want func(int) bool, to int) int {
+	i := w.find(f, want)
+	if i >= 0 {
+		f[i] = to
+	}
+	return i
+}
+
+// committerBody: the commit worker (node.notifyCommittedEntries), only with
+// NotifyCommit.
+func (w *c12sWorld) committerBody(prog []string) func() {
+	return func() {
+		for _, op := range prog {
+			vsched.Yield()
+			switch op {
+			case "cm":
+				if !vsched.Await(func() bool {
+					w.mu.Lock()
+					defer w.mu.Unlock()
+					return w.find(w.fate, func(f int) bool { return f == 0 }) >= 0
+				}, "commit worker awaits an entry") {
+					return
+				}
+				w.mu.Lock()
+				i := w.claim(w.fate, func(f int) bool { return f == 0 }, 2)
+				if i < 0 {
+					w.mu.Unlock()
+					continue
+				}
+				e := w.takenP[i]
+				w.commitKeys[e.Key] = w.seq()
+				w.mu.Unlock()
+				w.pp.committed(e.ClientID, e.SeriesID, e.Key)
+				w.mu.Lock()
+				w.fate[i] = 3
+				w.mu.Unlock()
+			case "cc":
+				if !vsched.Await(func() bool {
+					w.mu.Lock()
+					defer w.mu.Unlock()
+					return w.find(w.ccFate, func(f int) bool { return f == 0 }) >= 0
+				}, "commit worker awaits a config change") {
+					return
+				}
+				w.mu.Lock()
+				i := w.claim(w.ccFate, func(f int) bool { return f == 0 }, 2)
+				if i < 0 {
+					w.mu.Unlock()
+					continue
+				}
+				k := w.ccKeys[i]
+				w.commitKeys[k] = w.seq()
+				w.mu.Unlock()
+				w.pcc.committed(k)
+				w.mu.Lock()
+				w.ccFate[i] = 3
+				w.mu.Unlock()
+			default:
+				panic("harness: unknown committer op " + op)
 			}
 		}
 	}
@@ -659,6 +768,9 @@ func c12sSetup(sc *c12sScenario, wp **c12sWorld) func(r *vsched.Run) {
 		}
 		if len(sc.Stepper) > 0 {
 			r.Go("stepper", w.stepperBody(sc.Stepper))
+		}
+		if len(sc.Committer) > 0 {
+			r.Go("committer", w.committerBody(sc.Committer))
 		}
 		if len(sc.Applier) > 0 {
 			r.Go("applier", w.applierBody(sc.Applier))
@@ -1037,12 +1149,34 @@ func TestVerifC12SSched(t *testing.T) {
 	var tot vsched.Stats
 	for si := range scs {
 		sc := &scs[si]
+		if f := os.Getenv("VERIF_SCENARIO"); f != "" && !strings.Contains(sc.Name, f) {
+			continue
+		}
 		if run.Expired() {
 			res.Cap("deadline reached before scenario " + sc.Name)
 			break
 		}
 		var w *c12sWorld
+		if os.Getenv("VERIF_DEBUG") != "" {
+			fmt.Fprintln(os.Stderr, "scenario", si, sc.Name)
+		}
 		salt := verifkit.Hash64(sc.Name)
+		func() {
+			defer func() {
+				if rec := recover(); rec != nil {
+					panic(fmt.Sprintf("scenario %q: %v", sc.Name, rec))
+				}
+			}()
+			c12sExploreOne(run, res, sc, salt, bound, &w, outcomes, minimal, &tot)
+		}()
+	}
+	c12sReport(run, res, scs, &tot, bound)
+}
+
+func c12sExploreOne(run *verifkit.Run, res *verifkit.Result, sc *c12sScenario, salt uint64, bound int, wp **c12sWorld,
+	outcomes map[string]struct{}, minimal map[string]int, tot *vsched.Stats) {
+	var w *c12sWorld
+	{
 		st := vsched.Explore(vsched.Config{
 			Bound: bound, Horizon: c12sHorizon, SplitDepth: 1, VerifyEvery: 997, DivergenceRetries: sc.retries(),
 			Mine:    func(k uint64) bool { return run.Mine((k ^ salt) % 1000003) },
@@ -1085,12 +1219,14 @@ func TestVerifC12SSched(t *testing.T) {
 		}
 		if st.Capped {
 			res.Cap("deadline reached inside scenario " + sc.Name)
-			break
 		}
 		if run.Shard == 0 {
 			res.Sample(3, map[string]interface{}{"scenario": sc.Name, "schedules_this_shard": st.Executions, "max_points": st.MaxPoints})
 		}
 	}
+}
+
+func c12sReport(run *verifkit.Run, res *verifkit.Result, scs []c12sScenario, tot *vsched.Stats, bound int) {
 	if run.Shard != 0 && len(scs) > 0 {
 		res.Sample(1, map[string]interface{}{"scenario": scs[run.Shard%len(scs)].Name})
 	}
@@ -1098,7 +1234,7 @@ func TestVerifC12SSched(t *testing.T) {
 	if tot.Schedules != tot.Executions {
 		panic(fmt.Sprintf("explorer executed a schedule twice: %d executions, %d distinct", tot.Executions, tot.Schedules))
 	}
-	res.Extra["scenarios"] = len(scs)
+	res.Extra["max_scenarios"] = len(scs)
 	res.Extra["executions"] = tot.Executions
 	res.Extra["distinct_schedules"] = tot.Schedules
 	res.Extra["spine_executions"] = tot.Spine
@@ -1112,7 +1248,7 @@ func TestVerifC12SSched(t *testing.T) {
 	for i := 0; i <= bound; i++ {
 		res.Extra[fmt.Sprintf("schedules_with_%d_preemptions", i)] = tot.ByPreempt[i]
 	}
-	res.Extra["preemption_bound"] = bound
+	res.Extra["max_preemption_bound"] = bound
 }
 
 // c12sReplaceViolation keeps, per key, the violation with the smallest
